@@ -11,7 +11,7 @@ use crate::ops::*;
 
 fn c14_cfg(tier: Tier) -> ProgCfg {
     ProgCfg {
-        mix: OpMix { write: 8, abandon: 10, read: 1, meta: 1, remove: 1, two_writers: 1, ..OpMix::NONE },
+        mix: OpMix { write: 8, abandon: 10, commit_dropped: 4, read: 1, meta: 1, remove: 1, two_writers: 1, ..OpMix::NONE },
         wmix: WriteMix { bad_decls: true, meta: true, by_hash: true, rich_matching: false, interfere: false },
         sizes: tier.pick(SizeMix::Normal, SizeMix::Boundary),
         keys: (1, 3),
@@ -101,6 +101,16 @@ fn c14_classify(t: &Trace, st: &mut Stats) -> bool {
                         st.class("abandon_after_stream_shutdown");
                         nt |= len > 0;
                     }
+                    AbandonAt::CommitDropped(_) => {
+                        if s.fl == Fl::Async && matches!(r.out, Out::Unit) {
+                            st.class("commit_cancelled_in_flight");
+                            nt = true;
+                        } else if s.fl == Fl::Async {
+                            st.class("commit_completed_within_the_polls");
+                        } else {
+                            st.class("abandon_after_chunks");
+                        }
+                    }
                 }
                 if crate::exec::declared_size(spec.declare, len).map(|d| d <= crate::gen::MIB && d > 0).unwrap_or(false) && (spec.key.is_none() || s.fl == Fl::Sync) {
                     st.class("abandoned_writer_was_memory_mapped");
@@ -167,6 +177,35 @@ fn c14_grid(_tier: Tier) -> Vec<Program> {
             }
         }
     }
+    // an async commit cancelled in flight (polled n times, then dropped) of bytes that an earlier
+    // entry already holds / that nobody holds: whatever the cancelled commit's background work
+    // does, the earlier entry keeps reading back; the key is the old or the new entry
+    for (li, len) in [9usize, 300, 70_000, (1 << 20) + 5].into_iter().enumerate() {
+        for polls in 1u8..=4 {
+            for (di, declare) in [Declare::None, Declare::Exact].into_iter().enumerate() {
+                for same_bytes in [true, false] {
+                    let mut w = WriteSpec::simple(if (li + di) % 3 == 2 { None } else { Some(0) }, if same_bytes { 0 } else { 1 });
+                    w.entry = WEntry::Opts;
+                    w.chunks = vec![len / 2];
+                    w.declare = declare;
+                    w.algo = [Algo::Sha256, Algo::Sha1][(li + polls as usize) % 2];
+                    let mut first = WriteSpec::simple(Some(1), 0);
+                    first.entry = WEntry::OneShotAlgo;
+                    first.algo = w.algo;
+                    out.push(Program {
+                        keys: vec!["cancelled-in-flight".into(), "stored-before".into()],
+                        blobs: vec![Blob::new(len, 11), Blob::new(len + 1, 12)],
+                        steps: vec![
+                            Step { op: Op::Write(first), fl: Fl::Sync },
+                            Step { op: Op::Abandon { spec: w, at: AbandonAt::CommitDropped(polls) }, fl: Fl::Async },
+                            Step { op: Op::Read { key: 1 }, fl: Fl::Sync },
+                            Step { op: Op::Meta { key: 0 }, fl: Fl::Async },
+                        ],
+                    });
+                }
+            }
+        }
+    }
     // a writer stays open while 70 000 others are created and dropped in the same process
     // (counters that wrap, tables that fill up): it commits as if nothing had happened
     for fl in [Fl::Sync, Fl::Async] {
@@ -190,7 +229,7 @@ pub fn c14() -> ProgEngine {
     ProgEngine {
         id: "C14",
         rule: "programs interleaving successful keyed / by-address writes, commits rejected by the size or the integrity check, and writers abandoned right after \
-               creation, after j chunks, mid-flight (async: the write future is polled once with a no-op waker and dropped while pending), or after flush — sync and \
+               creation, after j chunks, mid-flight (async: the write future is polled once with a no-op waker and dropped while pending), after flush, or (async) while the commit itself is in flight (its future polled 1-4 times and dropped: the key shows the old or the new entry, content valid before stays) — sync and \
                async, memory-mapped and plain, all sizes; oracle: after EVERY step lookups of every key, the listing and every address equal the reference model (an \
                abandoned or rejected write changes nothing; data is reachable under a key only after a commit that returned Ok); the temp area is empty after every \
                step of a purely synchronous prefix and, at the end, after quiescence (tokio: the runtime is dropped, which joins its blocking pool; async-std: polled, \
